@@ -401,6 +401,39 @@ func (u *Unit) applyPost(st *State, c *FuncContract, env *SpecEnv) {
 	}
 }
 
+// placeOf resolves a selector chain x.f.g (x a pointer, f a struct-valued field) to the
+// interior place of the last field.
+func (u *Unit) placeOf(st *State, env *SpecEnv, m *Spec) (*Ptr, types.Type, error) {
+	if m.Kind != SSel {
+		return nil, nil, fmt.Errorf("%s is not a field place", m)
+	}
+	var p *Ptr
+	var t types.Type
+	a, err := u.eval(st, env, m.A)
+	if err != nil {
+		return nil, nil, err
+	}
+	if dt := derefType(a.T); dt != nil {
+		p, t = u.ptrOf(a), dt
+	} else {
+		p, t, err = u.placeOf(st, env, m.A)
+		if err != nil {
+			return nil, nil, err
+		}
+	}
+	stt, ok := t.Underlying().(*types.Struct)
+	if !ok || p == nil {
+		return nil, nil, fmt.Errorf("%s: not a struct place", m)
+	}
+	for i := 0; i < stt.NumFields(); i++ {
+		if stt.Field(i).Name() == m.Name {
+			np := &Ptr{Kind: p.Kind, Ref: p.Ref, Idx: p.Idx, Root: p.Root, Path: append(append([]int(nil), p.Path...), i)}
+			return np, stt.Field(i).Type(), nil
+		}
+	}
+	return nil, nil, fmt.Errorf("%s: no such field", m)
+}
+
 // modLoc resolves a modifies entry to heap locations.
 func (u *Unit) modLocs(st *State, env *SpecEnv, m *Spec) ([]loc, string, error) {
 	switch m.Kind {
@@ -414,14 +447,25 @@ func (u *Unit) modLocs(st *State, env *SpecEnv, m *Spec) ([]loc, string, error) 
 			return nil, "", err
 		}
 		t := derefType(a.T)
+		var p *Ptr
 		if t == nil {
-			return nil, "", fmt.Errorf("modifies %s: not a pointer", m)
+			// a field of a struct-valued field (p.inner.f): resolve the place of the inner struct
+			if m.A.Kind == SSel {
+				pp, pt, perr := u.placeOf(st, env, m.A)
+				if perr != nil {
+					return nil, "", perr
+				}
+				p, t = pp, pt
+			} else {
+				return nil, "", fmt.Errorf("modifies %s: not a pointer", m)
+			}
+		} else {
+			p = u.ptrOf(a)
 		}
 		stt, ok := t.Underlying().(*types.Struct)
 		if !ok {
 			return nil, "", fmt.Errorf("modifies %s: not a struct", m)
 		}
-		p := u.ptrOf(a)
 		if m.Name == "all" {
 			locs, _ := u.locsOf(p)
 			return locs, "", nil
@@ -502,6 +546,11 @@ func (u *Unit) modLocs(st *State, env *SpecEnv, m *Spec) ([]loc, string, error) 
 			return locs, "", nil
 		default:
 			if gn, ok := u.eng.cs.GhostFields[m.Name]; ok && len(m.Args) == 1 {
+				if m.Args[0].Kind == SIdent && m.Args[0].Name == "any" {
+					// the ghost field of every object (whole component)
+					gs, _, _ := u.specSort(env, gn)
+					return nil, "GF_" + m.Name + "|(Array Int " + gs + ")", nil
+				}
 				a, err := u.eval(st, env, m.Args[0])
 				if err != nil {
 					return nil, "", err
